@@ -46,6 +46,9 @@ type C10Case struct {
 	// its requests are written and keeps reading (every request already sent must still be
 	// answered before the server closes the connection)
 	HalfClose bool `json:"half_close,omitempty"`
+	// CutAfter k > 0 (tcp): every write of the client ends k bytes after a packet boundary
+	// (1..3: inside the next length prefix), with a pause so that the server reads them apart
+	CutAfter int `json:"cut_after,omitempty"`
 }
 
 const (
@@ -74,6 +77,9 @@ func (e *Env) DrawC10(rt *rapid.T) C10Case {
 		c.ServerFilters = drawSide(rt, "server")
 	}
 	c.HalfClose = rapid.IntRange(0, 3).Draw(rt, "halfClose") == 0
+	if rapid.IntRange(0, 3).Draw(rt, "cutAfter") == 0 {
+		c.CutAfter = rapid.SampledFrom([]int{1, 2, 3, 4, 5}).Draw(rt, "cutAfterK")
+	}
 	maxReq := 24
 	switch c.Scenario {
 	case "queue-timeout":
@@ -319,6 +325,7 @@ func (e *Env) runC10Once(c C10Case) *stat.Failure {
 		defer rcn.Close()
 	}
 	streams := make([][]byte, c.NConns)
+	pktLens := make([][]int, c.NConns)
 	nExpected := make([]int, c.NConns)
 	for i, r := range c.Reqs {
 		req := RawReq{Version: r.Version, ReqID: r.ReqID, Servant: "Verif.Obj", Timeout: r.ITimeout, Context: map[string]string{}, Status: map[string]string{}}
@@ -363,6 +370,7 @@ func (e *Env) runC10Once(c C10Case) *stat.Failure {
 			time.Sleep(200 * time.Microsecond)
 		} else {
 			streams[r.Conn] = append(streams[r.Conn], pkt...)
+			pktLens[r.Conn] = append(pktLens[r.Conn], len(pkt))
 		}
 		if model[i].reply {
 			nExpected[r.Conn]++
@@ -370,7 +378,19 @@ func (e *Env) runC10Once(c C10Case) *stat.Failure {
 	}
 	if c.Proto != "udp" {
 		for i, s := range streams {
-			if err := conns[i].Write(s, c.Chunks); err != nil {
+			var err error
+			if c.CutAfter > 0 && len(pktLens[i]) >= 2 {
+				// first write: packet 0 plus k bytes of packet 1; every following write ends k
+				// bytes into the packet after the next boundary
+				chunks := []int{pktLens[i][0] + c.CutAfter}
+				for _, l := range pktLens[i][1 : len(pktLens[i])-1] {
+					chunks = append(chunks, l)
+				}
+				err = conns[i].WritePaced(s, chunks, 400*time.Microsecond)
+			} else {
+				err = conns[i].Write(s, c.Chunks)
+			}
+			if err != nil {
 				return stat.Failf("connection-lost", "server closed connection %d while well-formed requests were being written: %v", i, err)
 			}
 			if tc, ok := conns[i].C.(*net.TCPConn); ok && c.HalfClose {
